@@ -190,6 +190,15 @@ func (a *LPAgent) Step(s *Sim) {
 				out = p.PoolAssets[r.IntN(2)].Token.Denom
 				s.Stats.Probe("exit_single_denom_submitted")
 			}
+			if p.PoolParams.UseOracle && r.Float64() < 0.12 {
+				// a one-asset exit sized to take (almost) exactly the whole reserve of that asset: the
+				// largest share amount whose payout, by the chain's own calculation, still fits
+				out = p.PoolAssets[r.IntN(2)].Token.Denom
+				if best, ok := a.drainingExit(s, p, out, committed); ok {
+					sh = best
+					s.Stats.Probe("exit_sized_to_drain_a_reserve_submitted")
+				}
+			}
 			s.SendTx(u, "lp/exit", &ammtypes.MsgExitPool{Sender: u.Addr.String(), PoolId: p.PoolId, MinAmountsOut: sdk.Coins{}, ShareAmountIn: sh, TokenOutDenom: out})
 			continue
 		}
@@ -259,4 +268,58 @@ func (a *DonorAgent) Step(s *Sim) {
 		s.SendTx(u, "donor/burn", &banktypes.MsgSend{FromAddress: u.Addr.String(), ToAddress: zero, Amount: sdk.NewCoins(sdk.NewCoin(d, logUniform(r, 1, 1e7)))})
 		s.Stats.Probe("send_to_zero_address")
 	}
+}
+
+// drainingExit: binary search, with the chain's own exit calculation on the committed state, for
+// the largest share amount (up to max) whose one-asset payout does not exceed the pool's reserve.
+func (a *LPAgent) drainingExit(s *Sim, p ammtypes.Pool, denom string, max sdkmath.Int) (sdkmath.Int, bool) {
+	ctx, _ := s.Ctx().CacheContext()
+	app := s.N0.App
+	reserve := reserveOf(p, denom)
+	params := app.AmmKeeper.GetParams(ctx)
+	pays := func(sh sdkmath.Int) (sdkmath.Int, bool) {
+		var out sdkmath.Int
+		ok := true
+		func() {
+			defer func() {
+				if recover() != nil {
+					ok = false
+				}
+			}()
+			pp := p
+			coins, _, err := pp.CalcExitPoolCoinsFromShares(ctx, app.OracleKeeper, app.AccountedPoolKeeper, sh, denom, params)
+			if err != nil {
+				ok = false
+				return
+			}
+			out = coins.AmountOf(denom)
+		}()
+		return out, ok
+	}
+	hi := max
+	if lim := p.TotalShares.Amount.SubRaw(1); hi.GT(lim) {
+		hi = lim
+	}
+	lo := sdkmath.OneInt()
+	if !hi.GT(lo) {
+		return sdkmath.Int{}, false
+	}
+	if o, ok := pays(hi); ok && o.LTE(reserve) {
+		return hi, o.Equal(reserve) // the account cannot reach the reserve: only worth it if it hits exactly
+	}
+	for i := 0; i < 200 && hi.Sub(lo).GT(sdkmath.OneInt()); i++ {
+		mid := lo.Add(hi).QuoRaw(2)
+		if o, ok := pays(mid); ok && o.LTE(reserve) {
+			lo = mid
+		} else {
+			hi = mid
+		}
+	}
+	if o, ok := pays(lo); ok && o.IsPositive() {
+		if o.Equal(reserve) {
+			s.Stats.Probe("exit_that_pays_exactly_the_reserve_found")
+		}
+		return lo, true
+	}
+	return sdkmath.Int{}, false
 }
